@@ -28,6 +28,8 @@ var mutationKinds = map[string]bool{
 	"os.mkdir": true, "os.create": true, "os.remove": true, "file.close": true,
 	"badger.set": true, "badger.set.done": true, "badger.delete": true, "badger.delete.done": true,
 	"badger.txn": true, "badger.txn.done": true,
+	// inside a running Badger transaction nothing is durable yet: a kill here must leave no trace
+	"badger.txn.set": true, "badger.txn.delete": true,
 }
 
 var mutCount atomic.Int64
@@ -98,13 +100,18 @@ func ChildMain() {
 		say("opened")
 		if mode == "crash" {
 			for i, op := range c.Ops {
-				say("start %d", i)
+				say("start %d %d", i, mutCount.Load())
+				w.commitTooBig = false
 				ok := w.Apply(i, op)
 				if !ok {
 					say("mismatch %d %s", i, strings.ReplaceAll(r.Fail, "\n", " "))
 					r.Fail = ""
 				}
-				say("ack %d", i)
+				if w.commitTooBig {
+					say("ackfail %d", i)
+				} else {
+					say("ack %d", i)
+				}
 			}
 		}
 		waitQuiet()
@@ -155,6 +162,8 @@ type childRun struct {
 	killed   bool
 	mismatch []string
 	raw      string
+	startAt  map[int]int64 // step -> number of mutation points seen when the step began
+	failed   map[int]bool  // steps whose Commit was acknowledged with the "transaction too big" error
 }
 
 func runChild(mode string, c Case, dir string, killAt int64, extraEnv ...string) (childRun, error) {
@@ -185,9 +194,21 @@ func runChild(mode string, c Case, dir string, killAt int64, extraEnv ...string)
 			res.opened = true
 		case "start":
 			res.started, _ = strconv.Atoi(f[1])
-		case "ack":
+			if len(f) > 2 {
+				if res.startAt == nil {
+					res.startAt = map[int]int64{}
+				}
+				res.startAt[res.started], _ = strconv.ParseInt(f[2], 10, 64)
+			}
+		case "ack", "ackfail":
 			n, _ := strconv.Atoi(f[1])
 			res.acked = n + 1
+			if f[0] == "ackfail" {
+				if res.failed == nil {
+					res.failed = map[int]bool{}
+				}
+				res.failed[n] = true
+			}
 		case "total":
 			res.total, _ = strconv.ParseInt(f[1], 10, 64)
 		case "mismatch":
@@ -222,6 +243,10 @@ type CrashCase struct {
 	OnlyRec  int64 `json:"only_rec,omitempty"`  // replay: additionally crash recovery at this index
 	RecEvery int   `json:"rec_every,omitempty"` // explore crashes inside recovery for every k-th crash point (0 = never)
 	Debris   bool  `json:"debris,omitempty"`    // replay: only the "next process died while Badger created its memtable file" state of crash point Only
+	// Bulk: the workload contains a transaction burst (thousands of mutation points while it is filled);
+	// crash points are then sampled: Sample points inside every Commit step plus Sample over the rest
+	Bulk   bool `json:"bulk,omitempty"`
+	Sample int  `json:"sample,omitempty"`
 }
 
 // addEmptyMemTable puts the crashed directory into the state a process leaves when it is killed inside
@@ -318,8 +343,16 @@ func fmtState(w *World, s dbState) string {
 	sort.Strings(ks)
 	var b strings.Builder
 	b.WriteString("{")
-	for _, k := range ks {
-		fmt.Fprintf(&b, "%q: %s; ", k, w.describeHash(s[k]))
+	for i, k := range ks {
+		if i >= 12 {
+			fmt.Fprintf(&b, "... and %d more keys", len(ks)-i)
+			break
+		}
+		name := k
+		if len(name) > 48 {
+			name = fmt.Sprintf("%s...(%d bytes)", name[:32], len(k))
+		}
+		fmt.Fprintf(&b, "%q: %s; ", name, w.describeHash(s[k]))
 	}
 	b.WriteString("}")
 	return b.String()
@@ -334,7 +367,11 @@ func judgeCrash(c Case, r *ev.Result, dir string, run childRun, n int64, recAt i
 	// rebuild the model: acknowledged prefix, and the in-flight op if any
 	dry := newWorldStruct(c, &ev.Result{})
 	for i := 0; i < run.acked && i < len(c.Ops); i++ {
-		dry.ApplyDry(i, c.Ops[i])
+		op := c.Ops[i]
+		if run.failed[i] && op.K == "commit" {
+			op.K = "rollback" // acknowledged with an error: the transaction ended without effect
+		}
+		dry.ApplyDry(i, op)
 	}
 	allowed := []dbState{modelState(dry)}
 	inflight := "none"
@@ -425,12 +462,53 @@ func ExecC04(cc CrashCase) *ev.Result {
 	}
 	M := full.total
 	r.Count("mutation_points_full_run", M)
+	if len(full.failed) > 0 {
+		r.Class("commit-refused-too-big")
+	}
 	from, to := int64(1), M+2 // a little beyond M: background work interleaves differently run to run
 	if cc.Only > 0 {
 		from, to = cc.Only, cc.Only
 	}
+	var points []int64
+	if cc.Bulk && cc.Only == 0 {
+		k := int64(cc.Sample)
+		if k < 2 {
+			k = 8
+		}
+		spread := func(lo, hi int64) { // k points of (lo, hi], ends included
+			if hi <= lo {
+				return
+			}
+			for j := int64(0); j <= k; j++ {
+				if n := lo + 1 + (hi-lo-1)*j/k; n >= 1 {
+					points = append(points, n)
+				}
+			}
+		}
+		for i, op := range c.Ops {
+			if op.K != "commit" {
+				continue
+			}
+			lo, ok := full.startAt[i]
+			hi, ok2 := full.startAt[i+1]
+			if !ok2 {
+				hi = M
+			}
+			if ok {
+				spread(lo, hi)
+				r.Count("bulk_commit_points", hi-lo)
+			}
+		}
+		spread(0, M)
+		sort.Slice(points, func(a, b int) bool { return points[a] < points[b] })
+		points = slicesCompact(points)
+	} else {
+		for n := from; n <= to; n++ {
+			points = append(points, n)
+		}
+	}
 	interior := 0
-	for n := from; n <= to; n++ {
+	for _, n := range points {
 		d := filepath.Join(base, fmt.Sprintf("n%d", n))
 		os.MkdirAll(d, 0o755)
 		run, err := runChild("crash", c, d, n)
@@ -513,6 +591,16 @@ func ExecC04(cc CrashCase) *ev.Result {
 		r.Class("op-" + op.K)
 	}
 	return r
+}
+
+func slicesCompact(a []int64) []int64 {
+	out := a[:0]
+	for i, v := range a {
+		if i == 0 || v != a[i-1] {
+			out = append(out, v)
+		}
+	}
+	return out
 }
 
 func runChildOnCopy(mode string, c Case, snap string, killAt int64, base string) (childRun, error) {
